@@ -268,22 +268,34 @@ Fixpoint parse_rows (fuel : nat) (l : list Z) : list (Z * N * N * N) :=
 (* the bracket for one item: lower <= truth <= upper, upper - lower <= maximum_error *)
 Definition bracket_ok (t lb ub err : N) : bool := ((lb <=? t) && (t <=? ub) && (ub - lb <=? err))%N.
 
+(* what the Spec says about shapes: new / update / merge / reset observe nothing *)
+Definition is_pow2 (n : N) : bool := ((0 <? n) && (N.land n (n - 1) =? 0))%N.
+Definition nil_obs {A} (ob : list A) : bool := match ob with [] => true | _ => false end.
+
+(* A PANIC observation is predicted by the Spec only for new(max_map_size) with a size that is not
+   a power of two (documented); it ends the case.  Every other PANIC, a missing PANIC there, an
+   observation of the wrong shape, an EMPTY observation for a slot the Spec knows to hold a sketch,
+   and a length mismatch between operations and observations (the drivers cut the operations after
+   the observation of a panic) make the oracle fail. *)
 Fixpoint prop_from (st : ostate) (ops : list zop) (obs : list (list Z)) : bool :=
   match ops, obs with
+  | [], [] => true
   | (code0, a) :: r, ob :: obr =>
       let code := norm_code code0 in
       let a0 := nth 0 a 0 in let a1 := nth 1 a 0 in let a2 := nth 2 a 0 in let a3 := nth 3 a 0 in
-      if list_eqb Z.eqb ob PANIC then true else
+      if list_eqb Z.eqb ob PANIC then (code =? 0) && negb (is_pow2 (zN a1)) && nil_obs obr else
       match code with
-      | 0 => prop_from (op_ st a0 (Some (mkO [] 0 (N.max (zN a1) 8) true))) r obr
+      | 0 => is_pow2 (zN a1) && nil_obs ob && prop_from (op_ st a0 (Some (mkO [] 0 (N.max (zN a1) 8) true))) r obr
       | 1 => match og st a0 with
-             | Some s => prop_from (op_ st a0 (Some (mkO (tm_add (o_truth s) a1 (zN a2)) (o_total s + zN a2) (o_size s) (o_uniform s)))) r obr
+             | Some s => nil_obs ob &&
+                         prop_from (op_ st a0 (Some (mkO (tm_add (o_truth s) a1 (zN a2)) (o_total s + zN a2) (o_size s) (o_uniform s)))) r obr
              | None => prop_from st r obr
              end
       | 2 => match og st a0 with
              | Some s =>
                  let est := zN (nth 0 ob 0) in let lb := zN (nth 1 ob 0) in let ub := zN (nth 2 ob 0) in
                  let err := zN (nth 3 ob 0) in
+                 Nat.eqb (length ob) 4 &&
                  bracket_ok (tm_get (o_truth s) a1) lb ub err && (lb <=? est)%N && (est <=? ub)%N && prop_from st r obr
              | None => prop_from st r obr
              end
@@ -291,17 +303,22 @@ Fixpoint prop_from (st : ostate) (ops : list zop) (obs : list (list Z)) : bool :
              | Some s =>
                  let err := zN (nth 0 ob 0) in let total := zN (nth 1 ob 0) in let active := zN (nth 2 ob 0) in
                  let lgm := zN (nth 6 ob 0) in let mcap := zN (nth 7 ob 0) in
-                 (total =? o_total s)%N                              (* total_weight is exact *)
+                 Nat.eqb (length ob) 8
+                 && (total =? o_total s)%N                           (* total_weight is exact *)
                  && (active <=? 3 * o_size s / 4)%N                  (* capacity *)
                  (* the reported configuration is the one of the map in use: sizes below 8 are raised to 8 *)
                  && (mcap =? 3 * o_size s / 4)%N && (lgm =? N.log2 (o_size s))%N
-                 && (if o_uniform s && (o_size s <=? 1024)%N         (* maximum_error <= (3.5 / M) * N *)
-                     then (2 * o_size s * err <=? 7 * o_total s)%N else true)
+                 && (if o_uniform s
+                     then if (o_size s <=? 1024)%N
+                          then (2 * o_size s * err <=? 7 * o_total s)%N    (* maximum_error <= (3.5 / M) * N *)
+                          else (512 * err <=? o_total s)%N                 (* map sizes from 2048: maximum_error <= N / 512 *)
+                     else true)
                  && prop_from st r obr
              | None => prop_from st r obr
              end
       | 4 => match og st a0, og st a1 with
              | Some s, Some t =>
+                 nil_obs ob &&
                  prop_from (op_ st a0 (Some (mkO (tm_merge (o_truth s) (o_truth t)) (o_total s + o_total t) (o_size s)
                                                  (o_uniform s && o_uniform t && (o_size s =? o_size t)%N)))) r obr
              | _, _ => prop_from (op_ st a0 None) r obr
@@ -311,6 +328,8 @@ Fixpoint prop_from (st : ostate) (ops : list zop) (obs : list (list Z)) : bool :
                  let err := zN (nth 0 ob 0) in
                  let thr := if a2 =? 0 then err else N.max (zN a3) err in
                  let rows := parse_rows (length ob) (tl ob) in
+                 (* one leading maximum_error, then complete rows *)
+                 Nat.eqb (length ob) (S (4 * length rows)) &&
                  (* every reported row brackets the truth *)
                  forallb (fun rw => let '(i, _, u, lo) := rw in bracket_ok (tm_get (o_truth s) i) lo u err) rows
                  && (if a1 =? 0
@@ -325,13 +344,13 @@ Fixpoint prop_from (st : ostate) (ops : list zop) (obs : list (list Z)) : bool :
       | 7 => if list_eqb Z.eqb ob [1] then prop_from (op_ st a1 None) r obr else prop_from st r obr
       | 8 => if list_eqb Z.eqb ob [1] then prop_from (op_ st a0 None) r obr else prop_from st r obr
       | 9 => match og st a0 with
-             | Some s => prop_from (op_ st a0 (Some (mkO [] 0 (o_size s) true))) r obr
+             | Some s => nil_obs ob && prop_from (op_ st a0 (Some (mkO [] 0 (o_size s) true))) r obr
              | None => prop_from st r obr
              end
       | 11 => prop_from (op_ st a0 None) r obr
       | _ => prop_from st r obr
       end
-  | _, _ => true
+  | _, _ => false
   end.
 
 Definition prop_ok (c : case) : bool := prop_from (repeat None 8) (c_ops c) (c_obs c).
@@ -396,18 +415,21 @@ Definition image_ok (s : ospec) (ob : list Z) : bool :=
 Fixpoint layout_from (st : ostate) (ops : list zop) (obs : list (list Z)) : bool :=
   match ops, obs with
   | (code, a) :: r, ob :: obr =>
-      if is_obs ob PANIC then true else
+      (* the legs this oracle judges make valid calls only: no PANIC is predicted; a slot the Spec knows
+         to hold a sketch never observes EMPTY *)
+      if is_obs ob PANIC then false else
       let ok :=
         match code, og st (nth 0 a 0) with
-        | 6, Some s => if is_obs ob EMPTY then true else image_ok s ob
-        | 3, Some s => if is_obs ob EMPTY then true else
-                       (* C18: never more active items than maximum_map_capacity = 3/4 of the map size *)
+        | 6, Some s => image_ok s ob
+        | 3, Some s => (* C18: never more active items than maximum_map_capacity = 3/4 of the map size *)
                        let act := zN (nth 2 ob 0) in let mcap := zN (nth 7 ob 0) in
-                       ((act <=? 3 * o_size s / 4) && (mcap =? 3 * o_size s / 4))%N
-        | _, _ => true
+                       Nat.eqb (length ob) 8 && ((act <=? 3 * o_size s / 4) && (mcap =? 3 * o_size s / 4))%N
+        | _, Some s => negb (is_obs ob EMPTY)
+        | _, None => true
         end in
       ok && layout_from (o_next st code a ob) r obr
-  | _, _ => true
+  | [], [] => true
+  | _, _ => false
   end.
 Definition prop_layout (c : case) : bool := layout_from (repeat None 8) (c_ops c) (c_obs c).
 
@@ -447,7 +469,7 @@ Definition fexp_check (e : fexp) (code : Z) (a ob : list Z) : bool :=
   | 2 => let c := abs_get (a_counters d) a1 in
          is_obs ob [Nz (if (0 <? c)%N then c + a_offset d else 0)%N; Nz c; Nz (c + a_offset d)%N; Nz (a_offset d)]
   | 3 => let n := N.of_nat (length (a_counters d)) in
-         (nth 0 ob 0 =? Nz (a_offset d)) && (nth 1 ob 0 =? Nz (a_weight d)) && (nth 2 ob 0 =? Nz n)
+         Nat.eqb (length ob) 8 && (nth 0 ob 0 =? Nz (a_offset d)) && (nth 1 ob 0 =? Nz (a_weight d)) && (nth 2 ob 0 =? Nz n)
          && (nth 3 ob 0 =? zbool (n =? 0)%N)
          && (if fe_lgcur e then (nth 4 ob 0 =? Nz (a_lg_cur d)) && (nth 5 ob 0 =? Nz (spec_capacity (a_lg_cur d))) else true)
          && (nth 6 ob 0 =? Nz (a_lg_max d)) && (nth 7 ob 0 =? Nz (spec_capacity (a_lg_max d)))
@@ -467,8 +489,9 @@ Fixpoint foreign_from (st : fstate) (ops : list zop) (obs : list (list Z)) : boo
   match ops, obs with
   | (code, a) :: r, ob :: obr =>
       let a0 := nth 0 a 0 in let a1 := nth 1 a 0 in
-      if is_obs ob PANIC then true else
-      if is_obs ob EMPTY then foreign_from st r obr else
+      if is_obs ob PANIC then false else
+      (* EMPTY is what a slot without a sketch observes (a rejected image); never a slot that holds the expected state *)
+      if is_obs ob EMPTY then match fg st a0 with Some _ => (code =? 4) | None => true end && foreign_from st r obr else
       match code with
       | 11 => let bytes := map zN (skipn (2 + Z.to_nat a1) a) in
               match spec_decode bytes with
@@ -500,7 +523,8 @@ Fixpoint foreign_from (st : fstate) (ops : list zop) (obs : list (list Z)) : boo
              | None => foreign_from st r obr
              end
       end
-  | _, _ => true
+  | [], [] => true
+  | _, _ => false
   end.
 Definition prop_foreign (c : case) : bool := foreign_from (repeat None 8) (c_ops c) (c_obs c).
 
